@@ -57,7 +57,7 @@ def bump(idgen: Any, bumps: dict[str, int]) -> None:
 
 GARBAGE_KINDS = ("sym", "fun", "qty", "qty1f", "qty1", "qty0f", "vec", "cs", "calc", "conv", "solve", "float_arith",
     "const_copy", "const_copy_dim", "clone", "common_symbols", "const_as_unit",
-    "symbolic_wrappers", "symbolic_wrappers_rev", "thread_objects")
+    "symbolic_wrappers", "symbolic_wrappers_rev", "thread_objects", "const_evalf")
 
 
 def garbage(spec: Any) -> None:
@@ -153,6 +153,14 @@ def _garbage_one(i: int, kind: str, keep: list[Any]) -> None:
             for o in syms:
                 for cls in (symbolic.Average, symbolic.FiniteDifference, symbolic.ExactDifferential, symbolic.InexactDifferential):
                     keep.append(cls(o))
+        elif kind == "const_evalf":
+            from symplyphysics import quantities
+            for name in ("speed_of_light", "boltzmann_constant", "planck", "elementary_charge", "gravitational_constant",
+                    "molar_gas_constant", "stefan_boltzmann_constant", "vacuum_permittivity", "hbar", "avogadro_constant"):
+                c = getattr(quantities, name, None)
+                if c is not None:
+                    keep.append(sympy.N(c * 3, 3))
+                    keep.append((c**2).evalf(4))
         elif kind == "thread_objects":
             import threading
 
